@@ -68,6 +68,14 @@ def plan(tier, seed):
                       scale=(pick(rng, [1e-9, 1e-9, 1e6]) if i % 4 == 2 and inp in (
                           "gauss", "boundary", "interior", "ties", "sym", "herm", "nonherm",
                           "psd", "rankdef") else 1.0))
+    # user-defined proximal operators inside the combinators: subclasses of library classes that
+    # override _prox (a non-negative l1 penalty derived from L1Reg, a shifted box derived from
+    # BoxConstraint) and a class derived from Prox itself.  Conj must be the Moreau identity of
+    # whatever object it wraps, Stack and UnitaryTransform must call it
+    for i in range(24 if quick else 300):
+        P.add("user-prox", kind=pick(rng, ["nonneg-l1", "nonneg-l1", "shifted-box", "own-l2ball"]),
+              wrap=pick(rng, ["Conj", "Conj", "Stack", "Unitary", "Conj-Conj"]),
+              pseed=int(rng.integers(1 << 30)))
     # thousands of entries (an image's worth of coefficients): projections whose support is a
     # large part of the vector, thresholds over long arrays - size-gated code paths
     for cls in ("L1Proj", "fn-l1_proj", "Conj-L1Proj", "L2Reg-L1Proj", "Stack", "L1Reg",
@@ -408,9 +416,77 @@ def run_fn(case, rng):
     return held(sig, {}, 1, bool(np.any(y != 0)) or inp in ("boundary", "zeros"))
 
 
+def run_user(case):
+    import sigpy as sp
+    PR = sp.prox
+    rng = np.random.default_rng(case["pseed"])
+    n = int(rng.integers(2, 9))
+    shape = [n]
+    lam = float(10 ** rng.uniform(-1, 0.5))
+
+    class NonNegL1(PR.L1Reg):            # lam ||x||_1 + indicator(x >= 0), real data
+        def _prox(self, alpha, input):
+            return np.maximum(input - self.lamda * alpha, 0)
+
+    class ShiftedBox(PR.BoxConstraint):  # box moved by one unit
+        def _prox(self, alpha, input):
+            return np.clip(input, self.lower + 1.0, self.upper + 1.0)
+
+    class OwnL2Ball(PR.Prox):            # projection onto the l2 ball of radius r
+        def __init__(self, shape, r):
+            self.r = r
+            super().__init__(shape)
+
+        def _prox(self, alpha, input):
+            nr = float(np.linalg.norm(input))
+            return input * min(1.0, self.r / nr) if nr > 0 else input
+    inner = {"nonneg-l1": lambda: NonNegL1(shape, lam),
+             "shifted-box": lambda: ShiftedBox(shape, -0.5, 0.7),
+             "own-l2ball": lambda: OwnL2Ball(shape, lam)}[case["kind"]]()
+    y = rng.standard_normal(n) * 2
+    alpha = float(10 ** rng.uniform(-1, 1))
+    sig = "user-prox|%s|%s" % (case["kind"], case["wrap"])
+    wit = dict(case)
+
+    def direct(a_, v_):
+        return np.asarray(inner(a_, v_))
+    try:
+        if case["wrap"] == "Conj":
+            got = PR.Conj(inner)(alpha, y)
+            ref = y - alpha * direct(1 / alpha, y / alpha)
+        elif case["wrap"] == "Conj-Conj":
+            got = PR.Conj(PR.Conj(inner))(alpha, y)
+            ref = direct(alpha, y)
+        elif case["wrap"] == "Stack":
+            other = PR.L2Reg([3], 0.3)
+            y2 = rng.standard_normal(3)
+            got = PR.Stack([other, inner])(alpha, np.concatenate([y2, y]))
+            ref = np.concatenate([np.asarray(other(alpha, y2)), direct(alpha, y)])
+        else:
+            A = sp.linop.Flip(shape, axes=[0])
+            got = PR.UnitaryTransform(inner, A)(alpha, y)
+            ref = direct(alpha, y[::-1])[::-1]
+    except Exception as e:
+        inn = e
+        while inn.__cause__ is not None:
+            inn = inn.__cause__
+        return violated(sig, "a combinator around a user-defined prox raised %s: %s" % (
+            type(inn).__name__, str(inn)[:150]), wit, mech="user-prox-raised")
+    got = np.asarray(got)
+    if got.shape != ref.shape or not np.max(np.abs(got - ref)) <= 1e-12 * (1 + np.max(np.abs(y))):
+        return violated(sig, "%s around a user-defined prox (%s) does not return what the "
+                        "wrapped object's own prox implies: max difference %.3g" % (
+                            case["wrap"], case["kind"],
+                            float(np.max(np.abs(got - ref))) if got.shape == ref.shape else
+                            np.inf), wit, mech="user-prox:" + case["wrap"])
+    return held(sig, {}, 1, True)
+
+
 def run_case(case):
     if case["gen"] == "repo-tests":
         return repo_tests.run("C11")
+    if case["gen"] == "user-prox":
+        return run_user(case)
     rng = np.random.default_rng(case["pseed"])
     _BIG[0] = bool(case.get("big"))
     _HUGE[0] = bool(case.get("huge"))
